@@ -533,6 +533,9 @@ pub struct Cluster {
     pub budget: u64,
     pub max_quiet_steps: u64,
     pub max_early_ticks: u32,
+    /// nodes that learn late that a peer's connection closed (see `kill_node_noticed_late_by`)
+    pub late_eof: std::collections::BTreeSet<usize>,
+    pub late_ticks: u32,
     /// every node binds to 0.0.0.0:<port> and is known to its peers by another (external) address
     pub bind_differs: bool,
 }
@@ -557,7 +560,7 @@ impl Cluster {
                 g.nodes.push(SimNode { node: None, dbs: None, addr: format!("10.0.0.{}:3014", i + 1), dir, alive: false, process_id: 0, repl_q: VecDeque::new(), sup_q: VecDeque::new(), starts: 0 });
             }
         }
-        Cluster { sim, rng: Rng::new(seed), base_dir, sessions: BTreeMap::new(), budget: 6000, max_quiet_steps: 0, max_early_ticks: 4, bind_differs: seed % 3 == 2 && std::env::var("VERIF_NO_BIND_VARIANT").is_err() }
+        Cluster { sim, rng: Rng::new(seed), base_dir, sessions: BTreeMap::new(), budget: 6000, max_quiet_steps: 0, max_early_ticks: 4, late_eof: std::collections::BTreeSet::new(), late_ticks: 0, bind_differs: seed % 3 == 2 && std::env::var("VERIF_NO_BIND_VARIANT").is_err() }
     }
 
     pub fn n(&self) -> usize {
@@ -635,6 +638,16 @@ impl Cluster {
     }
 
     /// kill -9 of node i.
+    /// Like `kill_node`, but node `late` learns of the closed connections only after everything else that can happen
+    /// has happened (messages first, then up to 7 timer ticks - less than half an election timeout): the end of a TCP
+    /// connection is noticed by each peer on its own, and a delay below the election timeout is inside the premise.
+    pub fn kill_node_noticed_late_by(&mut self, i: usize, late: usize) {
+        self.late_eof.insert(late);
+        self.late_ticks = 0;
+        self.note(format!("n{} will notice late that n{} is gone", late, i));
+        self.kill_node(i);
+    }
+
     pub fn kill_node(&mut self, i: usize) {
         self.note(format!("n{} is killed", i));
         let mut to_wake = vec![];
@@ -827,6 +840,7 @@ impl Cluster {
         }
         let mut acts: Vec<Act> = vec![];
         let mut ticks: Vec<Act> = vec![];
+        let mut late: Vec<Act> = vec![];
         {
             let g = self.sim.inner.lock().unwrap();
             for (li, l) in g.links.iter().enumerate() {
@@ -838,14 +852,14 @@ impl Cluster {
                     if from_alive && l.open && (!l.pre.is_empty() || !l.a2b.is_empty()) {
                         acts.push(Act::DeliverToServer(li));
                     } else if (!from_alive || !l.open) && !l.eof_sent_to_server {
-                        acts.push(Act::EofToServer(li));
+                        if self.late_eof.contains(&l.to) && !from_alive { late.push(Act::EofToServer(li)); } else { acts.push(Act::EofToServer(li)); }
                     }
                 }
                 if cli.status == Status::WaitInput && from_alive {
                     if !l.b2a.is_empty() {
                         acts.push(Act::DeliverToClient(li));
                     } else if (!to_alive || !l.open || srv.status == Status::Finished) && !l.eof_sent_to_client {
-                        acts.push(Act::EofToClient(li));
+                        if self.late_eof.contains(&l.from) && !to_alive { late.push(Act::EofToClient(li)); } else { acts.push(Act::EofToClient(li)); }
                     }
                 }
                 if cli.status == Status::WaitClose && l.cmd_closed {
@@ -903,6 +917,17 @@ impl Cluster {
             }
             self.grant(t);
             return true;
+        }
+        if late.is_empty() {
+            if !self.late_eof.is_empty() {
+                self.late_eof.clear();
+            }
+            self.late_ticks = 0;
+        } else if acts.is_empty() && (ticks.is_empty() || self.late_ticks >= 7) {
+            // the late notices arrive now
+            acts.append(&mut late);
+        } else if acts.is_empty() {
+            self.late_ticks += 1;
         }
         let is_tick = acts.is_empty();
         let pool = if acts.is_empty() { &mut ticks } else { &mut acts };
